@@ -15,9 +15,10 @@ exactly `rest` unread. The `…OK` predicates delimit the values the grammar can
 2^32, non-empty sequence sets, atoms made of ATOM-CHARs, dates with a month 1..12, ...) and carry the
 loop fuel the model needs; they are spelled out in `Lemmas/Parse*.lean`.
 
-`_partial` forms: three classes of valid input are excluded by the printer because the current code
-mis-handles them; each exclusion has its witness theorem here (`literal0_witness`,
-`lbracket_atom_witness`, `list_literal_witness`).
+`_partial` forms: two classes of valid input are excluded by the printer because the current code
+mis-handles them; each exclusion has its witness theorem here (`lbracket_atom_witness`,
+`list_literal_witness`). (A third one, the empty literal `{0}`, was repaired by commit e5f2a7d and is now
+inside `string_roundtrip`.)
 -/
 import GluonModel.Lemmas.ParseId
 
@@ -27,9 +28,9 @@ open Gluon.Parse
 /-! ## strings and numbers -/
 
 /-- Every byte string below the literal size cap, in every encoding the printer may choose for it
-(atom if admissible, quoted, literal — preference `e`), followed by anything that is not an
-astring character, is read back by `ParseAString` as exactly that byte string, with exactly the
-encoding's bytes consumed. -/
+(atom if admissible, quoted if without NUL/CR/LF, literal always — also the empty `{0}`; preference
+`e`), followed by anything that is not an astring character, is read back by `ParseAString` as exactly
+that byte string, with exactly the encoding's bytes consumed. -/
 theorem string_roundtrip (e : Nat) (s : Bytes) (hs : StrOK s) (fuel : Nat) (hf : s.length + 1 < fuel)
     (c : Ctx) (rest : Bytes) (hr : isAStringChar (headTy rest) = false) :
     ∃ c', parseAString fuel (load c (printAString e s ++ rest)) = .ok s (load c' rest) :=
@@ -46,14 +47,9 @@ theorem string_roundtrip_string (e : Nat) (s : Bytes) (hs : StrOK s) (fuel : Nat
     ∃ c', parseString fuel (load c (printString e s ++ rest)) = .ok s (load c' rest) :=
   rt_parseString e s hs fuel hf c rest trivial
 
-/-- The full statement "every admissible encoding" is false of the current code: the empty string
-written as the literal `{0}` CRLF — valid RFC 3501 syntax — is rejected, and with a plain error
-instead of a parser error (DESIGN section 9, #17). Hence `printString`/`printAString` never choose
-`{0}` and `string_roundtrip` is the `_partial` form "literal only if non-empty". -/
-theorem literal0_witness :
-    (match parseAString 100 (load ⟨Tok.eof, 0, 0⟩ (kw "{0}\r\n ")) with
-      | .err .litZero _ => true
-      | _ => false) = true := by decide +kernel
+/-- the empty string as the literal `{0}` CRLF is one of the encodings covered (repaired #17) -/
+example : printString 1 [] = kw "{0}\r\n" ∧ printAString 2 [] = kw "{0}\r\n" ∧ printAString 1 [] = kw "\"\"" := by
+  decide +kernel
 
 /-- `[` is an ATOM-CHAR by RFC 3501 (it is not among the atom-specials), but `IsAtomChar` excludes it:
 `a SELECT foo[bar` is rejected. Hence `atomOK` excludes `[` (`_partial` form of the atom case). -/
